@@ -238,6 +238,9 @@ def cli_channel_run(b, data, cfg, in_ch, out_ch, workdir, tag, extra_env=None, t
                 # the same bytes as an archive of several members (what `cat a.gz b.gz` or a rotating writer produces), cut at line ends
                 cuts = [i + 1 for i, ch in enumerate(data) if ch == 10]
                 pts = [0] + [c for j, c in enumerate(cuts) if j % max(1, len(cuts) // 3) == 0 and c < len(data)] + [len(data)]
+                if len(data) % 2 == 1:
+                    # ... or (every other input) a few bytes into the next line: member boundaries are not line boundaries
+                    pts = [p if p in (0, len(data)) else min(len(data), p + 7) for p in pts]
                 pts = sorted(set(pts))
                 for a, b2 in zip(pts, pts[1:]):
                     f.write(gzip.compress(data[a:b2], mtime=0))
